@@ -468,7 +468,9 @@ class Circuit(object):
         must not keep the others from hearing about it, nor stop us
         from finishing the update).
         """
-        for x in self.listeners:
+        # iterate over a copy: a listener may unlisten itself (or another)
+        # from inside its callback
+        for x in list(self.listeners):
             try:
                 getattr(x, func)(*args, **kw)
             except Exception:
